@@ -23,6 +23,15 @@ CHECKS = [
           "with the model's back-transform of an independent eigh. Open finding F1b (null-space eigenfunctions from np.linalg.eig not orthonormal "
           "for n_components=None on rank-deficient data) recognised through a weaker defect certificate.",
   "note": STD_NOTE},
+ {"id": "C03",
+  "text": "Theorems: with the eigen-equation of the (n-1) sample covariance of the prepared curves, NumInt score cross-products are "
+          "(n-1) lambda_k <phi_j,phi_k>_w (uncorrelated, variance lambda_k for quadrature-orthonormal eigenfunctions) and scores of centred "
+          "curves sum to zero; Gram-based scores r_k v_k have cross-products r_j r_k v_j.v_k (= n lambda_k delta_jk); inverse_transform is "
+          "mean + s * (linear map of the scores); scores of a combination of W-orthonormal eigenfunctions are its coefficients and the round trip "
+          "returns the curve when the prepared curve lies in the span, for s = 1 and s = sqrt(weight); the uncentred-rescale defect (F2) is "
+          "refuted by a computed witness. Tie: transform(None/X_train, NumInt/InnPro), inverse_transform vs the exact Q model fed with the "
+          "implementation's mean, weight, eigenfunctions, on 1-D and 2-D data; open finding F2 recognised by exact agreement with the defect model.",
+  "note": STD_NOTE + " PACE scores: well-formedness only. Projection property outside the span is not proved (C03_roundtrip_is_projection_partial)."},
  {"id": "C08",
   "text": "Theorems (all grids that are non-decreasing lists of reals, all integrands/datasets of matching length): trapezoid integration equals "
           "the dot product with its own weights, weights >= 0, additive and homogeneous, exact on affine pieces and additive over adjacent "
